@@ -21,6 +21,7 @@ Decided
       tuple: split by its first component
   U1  shape = (n_samples, n_channels), n_samples = chunk_bounds[-1], duration = n_samples / sample_rate
   H1  the row selector is compared with slice(None) only when it is a slice (an index array is ambiguous in `==`)
+  +   P1 prerequisite: the deferred ops, the channel selection included, are replayed as recorded (C02.T3)
 Not decided: NumPy / mtscomp / memmap semantics, numeric correctness of cumulative sums, empty selections.
 """
 import ast
@@ -871,6 +872,23 @@ def p1_getitem(ctx):
         ctx.holds('C01.P1', gi, 'reader[item] = replay of the deferred ops over vstack of _get_part(p, s) for (p, s) in _get_subitems(self.part_bounds, item), in order (%d paths)' % n, '__getitem__')
     elif rep_ == 'tuple':
         ctx.undecided('C01.P1', gi, 'no data path found')
+    # replay of the deferred column selection (and of every other op) is C02.T3's obligation: a replay that re-orders / re-interprets the selector breaks
+    # "optionally followed by a channel selector ... exactly the columns NumPy would return" here too
+    if rep_ == 'tuple':
+        from vlib import report as _report
+        from obligations import C02 as _C02
+        sub = _report.Ctx('C02', ctx.repo, ctx.tier, ctx.seed)
+        try:
+            _C02.run(sub)
+        except Exception:
+            pass          # T3 is recorded before the later groups of C02 run: what was recorded is used
+        t3 = [o for o in sub.obs if o.rule == 'C02.T3']
+        for o in [o for o in t3 if o.status == 'violated'][:2]:
+            ctx.obs.append(_report.Ob('C01.P1', o.where, 'violated', 'the deferred ops (channel selection included) are not replayed as recorded (C02.T3): %s' % o.detail, o.construct, o.line))
+        if t3 and not any(o.status == 'violated' for o in t3) and any(o.status == 'holds' for o in t3):
+            ctx.holds('C01.P1', gi, 'replay of the deferred ops, the channel selection included, is as recorded (C02.T3 holds)', 'replay')
+        elif not t3:
+            ctx.undecided('C01.P1', gi, 'the replay obligations of C02 (T3) could not be evaluated')
     # H1 (F01)
     found = False
     for ifn in gi.nodes(ast.If):
